@@ -283,6 +283,7 @@ def run(ctx):
               'Conformance: TLC-simulated op sequences executed on ITML/MMC/SDML + random histories; SCML triplets '
               'and LSML quadruplets with manufactured exact ties, formed and through index+preprocessor; distinct by '
               '(estimator, op sequence, input form, seed); non-trivial = at least one predict event with a tie')
+  ctx.rule += " Plus the executions of the repository's own test suite recorded by the pytest tracing plugin (one case per test / per estimator object; distinct by test id)."
   ctx.model('MC_Classify', 'MC_Classify.cfg', workers=8)
   hs = tlc_histories(ctx, 40 if ctx.quick else 1200)
   rng = np.random.default_rng(ctx.seed + 4)
